@@ -16,6 +16,7 @@ classifies mismatches (the `cause` feature) by probing the real code.
 """
 from __future__ import annotations
 
+import collections
 import json
 import os
 import struct
@@ -915,7 +916,8 @@ def _expr_traces(chk: Check, n_traces, per_trace, depth):
                 stage = rng.choice(stages_for(e))
                 s2, ent = impl_call(staged, e, stage)
                 if s2 != "ok":
-                    evs.append({"ev": "Same", "i": len(evs), "what": "stage-" + stage, "before": "ok", "after": ent, "e": e})
+                    evs.append({"ev": "Same", "i": len(evs), "what": "stage-" + stage, "before": "ok", "after": ent, "e": e,
+                                "bk": [], "bc": [], "ac": []})
                     continue
                 sc = rng.random() < 0.5
                 res, exc = verdict(node, ent, sc)
@@ -1008,7 +1010,7 @@ def canon(x):
 def proj_message(msg, ser):
     st, wire = impl_call(lambda: bytes(ser.serialize(msg)).hex()) if ser is not None else ("ok", "-")
     body = [[bn, i, [[vn, canon(v)] for vn, v in blk.items()]] for bn, bl in msg.blocks.items() for i, blk in enumerate(bl)]
-    return json.dumps({"name": msg.name, "dir": msg.direction.name, "pid": -1 if msg.packet_id is None else msg.packet_id,
+    return json.dumps({"lists": [[bn, len(bl)] for bn, bl in msg.blocks.items()], "name": msg.name, "dir": msg.direction.name, "pid": -1 if msg.packet_id is None else msg.packet_id,
                        "flags": int(msg.send_flags), "acks": [int(a) for a in msg.acks], "extra": bytes(msg.extra).hex(),
                        "dropped": bool(msg.dropped), "synthetic": bool(msg.synthetic), "meta": canon(msg.meta), "body": body,
                        "wire": wire if st == "ok" else "unserializable"}, sort_keys=True)
@@ -1068,25 +1070,74 @@ def _rand_field(rng, var):
     raise common.MachineryError("unknown template variable type %r" % (t,))
 
 
-def _rand_template_message(rng, names):
+EMPTY_CASES = ("only-block", "trailing", "before-populated", "all-variable-blocks-empty")
+
+
+def _templates_for_empty_case(case):
+    """Templates in which a zero-entry Variable block can sit in the wanted position (input construction)."""
+    from hippolyzer.lib.base.message.template_dict import DEFAULT_TEMPLATE_DICT
+    from hippolyzer.lib.base.message.msgtypes import MsgBlockType
+    out = []
+    for name in sorted(DEFAULT_TEMPLATE_DICT.message_templates):
+        bl = DEFAULT_TEMPLATE_DICT.message_templates[name].blocks
+        var = [i for i, b in enumerate(bl) if b.block_type == MsgBlockType.MBT_VARIABLE]
+        if not var:
+            continue
+        if case == "only-block" and len(bl) == 1:
+            out.append((name, {bl[0].name}))
+        elif case == "trailing" and len(bl) > 1 and var[-1] == len(bl) - 1:
+            # every Variable block of the trailing run may be empty; keep something populated before it
+            k = len(bl) - 1
+            while k - 1 in var and k - 1 > 0:
+                k -= 1
+            out.append((name, {b.name for b in bl[k:]}))
+        elif case == "before-populated" and var[0] < len(bl) - 1:
+            out.append((name, {bl[var[0]].name}))
+        elif case == "all-variable-blocks-empty" and len(var) >= 2:
+            out.append((name, {bl[i].name for i in var}))
+    return out
+
+
+def block_counts(msg):
+    """Projection: per template block, the number of entries of the message's block list (-1: no such list)."""
+    from hippolyzer.lib.base.message.template_dict import DEFAULT_TEMPLATE_DICT
+    tmpl = DEFAULT_TEMPLATE_DICT.message_templates.get(msg.name)
+    if tmpl is None:
+        return [], []
+    kinds = ["S", "M", "V"]
+    return ([kinds[tb.block_type] for tb in tmpl.blocks],
+            [len(msg.blocks[tb.name]) if tb.name in msg.blocks else -1 for tb in tmpl.blocks])
+
+
+def _rand_template_message(rng, names, empty_case=None):
     from hippolyzer.lib.base.message.template_dict import DEFAULT_TEMPLATE_DICT
     from hippolyzer.lib.base.message.msgtypes import MsgBlockType
     from hippolyzer.lib.base.network.transport import Direction
-    tmpl = DEFAULT_TEMPLATE_DICT.message_templates[rng.choice(names)]
-    blocks = []
+    zero = set()
+    if empty_case:
+        name, zero = rng.choice(_templates_for_empty_case(empty_case))
+        tmpl = DEFAULT_TEMPLATE_DICT.message_templates[name]
+    else:
+        tmpl = DEFAULT_TEMPLATE_DICT.message_templates[rng.choice(names)]
+    blocks = []      # in template order; a zero-entry Variable block is a present but empty block list
     for tb in tmpl.blocks:
         if tb.block_type == MsgBlockType.MBT_SINGLE:
             n = 1
         elif tb.block_type == MsgBlockType.MBT_MULTIPLE:
             n = tb.number
+        elif tb.name in zero:
+            n = 0
         else:
             n = rng.randrange(1, 4)
-        for _ in range(n):
-            blocks.append(Block(tb.name, **{v.name: _rand_field(rng, v) for v in tb.variables}))
+        blocks.append((tb.name, [Block(tb.name, **{v.name: _rand_field(rng, v) for v in tb.variables}) for _ in range(n)]))
     flags = rng.choice([0, 0x40, 0x80, 0xC0, 0x20, 0x40 | 0x10])
     acks = tuple(rng.randrange(1, 1000) for _ in range(rng.randrange(1, 4))) if flags & 0x10 else None
-    msg = Message(tmpl.name, *blocks, packet_id=rng.randrange(1, 2 ** 31), flags=flags, acks=acks,
+    msg = Message(tmpl.name, packet_id=rng.randrange(1, 2 ** 31), flags=flags, acks=acks,
                   direction=rng.choice([Direction.IN, Direction.OUT]))
+    for bname, bl in blocks:
+        msg.create_block_list(bname)
+        for b in bl:
+            msg.add_block(b)
     if rng.random() < 0.3:
         msg.meta["Note"] = rng.choice(["x", 7])
     return msg
@@ -1109,15 +1160,24 @@ def _preserve_traces(chk: Check, n_lludp, n_other):
     traces, evs = [], []
     skipped = 0
 
-    def record(what, before, fn):
+    def record(what, before, fn, bk=(), bc=(), cfn=None):
+        """`fn` -> projection text after the round trip; `cfn` -> the message whose block lists are counted."""
         st, after = impl_call(fn)
-        evs.append({"ev": "Same", "i": len(evs), "what": what, "before": before, "after": after if st == "ok" else "raised " + after})
+        ac = []
+        if st == "ok" and cfn is not None:
+            st2, m = impl_call(cfn)
+            ac = block_counts(m)[1] if st2 == "ok" else []
+        evs.append({"ev": "Same", "i": len(evs), "what": what, "before": before, "after": after if st == "ok" else "raised " + after,
+                    "bk": list(bk), "bc": list(bc), "ac": ac})
 
     made = 0
     attempts = 0
+    n_empty = collections.Counter()
     while made < n_lludp and attempts < n_lludp * 4:
         attempts += 1
-        msg = _rand_template_message(rng, names)
+        # every third message carries zero-entry Variable blocks, cycling through the positions
+        empty_case = EMPTY_CASES[(attempts // 3) % 4] if attempts % 3 == 0 else None
+        msg = _rand_template_message(rng, names, empty_case)
         st, wire = impl_call(lambda: bytes(ser.serialize(msg)))
         if st != "ok" or len(wire) > 1200:
             skipped += 1      # not a loggable message of this driver (codec limits are C01's subject)
@@ -1144,15 +1204,19 @@ def _preserve_traces(chk: Check, n_lludp, n_other):
             skipped += 1
             continue
         made += 1
+        if empty_case:
+            n_empty[empty_case + "/" + src] += 1
+        bk, bc = block_counts(twin1)
         ent = ml.LLUDPMessageLogEntry(logged, None, None)
         ebefore = proj_entry(ml.LLUDPMessageLogEntry(twin2, None, None), ser)
         st, r = impl_call(ent.freeze)
         if st != "ok":
-            evs.append({"ev": "Same", "i": len(evs), "what": "freeze", "before": before, "after": "raised " + r})
+            evs.append({"ev": "Same", "i": len(evs), "what": "freeze", "before": before, "after": "raised " + r, "bk": bk, "bc": bc, "ac": []})
         else:
-            record("freeze", before, lambda: proj_message(ent.message, ser))
-            record("freeze-entry", ebefore, lambda: proj_entry(ent, ser))
-        record("export", ebefore, lambda: proj_entry(ml.import_log_entries(ml.export_log_entries([ent]))[0], ser))
+            record("freeze", before, lambda: proj_message(ent.message, ser), bk, bc, lambda: ent.message)
+            record("freeze-entry", ebefore, lambda: proj_entry(ent, ser), bk, bc, lambda: ent.message)
+        record("export", ebefore, lambda: proj_entry(ml.import_log_entries(ml.export_log_entries([ent]))[0], ser), bk, bc,
+               lambda: ml.import_log_entries(ml.export_log_entries([ent]))[0].message)
         chk.nontrivial(("preserve", made))
         if len(evs) >= 24:
             traces.append(evs)
@@ -1163,7 +1227,7 @@ def _preserve_traces(chk: Check, n_lludp, n_other):
         before = proj_entry(ent)
         st, r = impl_call(ent.freeze)
         if st != "ok":
-            evs.append({"ev": "Same", "i": len(evs), "what": "freeze", "before": before, "after": "raised " + r})
+            evs.append({"ev": "Same", "i": len(evs), "what": "freeze", "before": before, "after": "raised " + r, "bk": [], "bc": [], "ac": []})
         else:
             record("freeze-entry", before, lambda: proj_entry(ent))
         record("export", before, lambda: proj_entry(ml.import_log_entries(ml.export_log_entries([ent]))[0]))
@@ -1179,8 +1243,14 @@ def _preserve_traces(chk: Check, n_lludp, n_other):
         ents = [build_entry(e, i) for i, e in enumerate(es)]
         before = json.dumps([proj_entry(x) for x in ents])
         st, after = impl_call(lambda: json.dumps([proj_entry(x) for x in ml.import_log_entries(ml.export_log_entries(ents))]))
-        traces.append([{"ev": "Same", "i": 0, "what": "export-list", "before": before, "after": after if st == "ok" else "raised " + after}])
+        traces.append([{"ev": "Same", "i": 0, "what": "export-list", "before": before, "after": after if st == "ok" else "raised " + after,
+                        "bk": [], "bc": [], "ac": []}])
     chk.notes.append("preservation driver: %d generated template messages skipped before logging (not serializable / too long)" % skipped)
+    chk.cov.setdefault("preserved_messages_with_zero_entry_variable_block", {})
+    for k, v in sorted(n_empty.items()):
+        chk.cov["preserved_messages_with_zero_entry_variable_block"][k] = chk.cov["preserved_messages_with_zero_entry_variable_block"].get(k, 0) + v
+    if n_lludp >= 100 and len({k.split("/")[0] for k in n_empty}) < 4:
+        raise common.MachineryError("preservation driver produced no message for some zero-entry block position: %r" % dict(n_empty))
     return traces
 
 
@@ -1242,7 +1312,9 @@ def _b2(chk: Check, agg: Agg, traces, W, label):
                                                     "le_ge": _has_le_ge(ev["toks"])},
                     {"filter": ev["text"], "impl_ok": ev["ok"], "impl_shape": ev["shape"]})
         elif ev["ev"] == "Same":
-            agg.add("B2 %s: %s" % (label, clause), {"kind": "preserve", "what": ev["what"], "cause": _preserve_cause(ev["before"], ev["after"])},
+            agg.add("B2 %s: %s" % (label, clause), {"kind": "preserve", "what": ev["what"],
+                                                    "cause": ("zero-entry-block-list-lost" if "zero-entry-variable-block" in clause and ev["ac"] != ev["bc"]
+                                                              else _preserve_cause(ev["before"], ev["after"]))},
                     {"before": ev["before"][:1500], "after": str(ev["after"])[:1500], "entry": ev.get("e")})
         else:
             hasx = any("inapplicable-comparison-in-force" in f["fail"] for f in fl)
